@@ -43,14 +43,25 @@ EXPLANATION = (
     'from 0 by 1 or len of the result list; fraction from 0 by flux / source '
     'row sum; the exit may be a break or a loop flag `while f:` that is set '
     'once per iteration with all later statements guarded by it), tested after recording and before the removal whose result '
-    'replaces the working copy. Optimality among all paths is not decided.')
+    'replaces the working copy; a loop test `while <counter> < num_paths [and '
+    '<fraction> < flux_cutoff]` is accepted in addition to those guards; '
+    '(D4.limits.first-path) some test of num_paths is passed on every way from '
+    'the entry to the first recording (the counter starts at 0 and advances '
+    'only after a recording, so a test placed after the recording cannot honour '
+    'num_paths = 0); (D3.sum-bound) the recorded paths form a feasible flow: '
+    'every built-in removal scheme deducts the path flux from every edge of '
+    'the path, or the loop refuses (before recording) a path with <explained> '
+    '+ flux / <total> > 1 - a scheme that changes a single edge leaves the '
+    'attributed flux on the other edges for later paths, and the sum of the '
+    'pathway fluxes can exceed the outflow of the sources. Optimality among '
+    'all paths is not decided.')
 
 
 def check(ck):
     mod = ck.repo.mod(PA)
     d2_top_path(ck, mod)
-    d3_removal(ck, mod)
-    d4_paths(ck, mod)
+    schemes = d3_removal(ck, mod)
+    d4_paths(ck, mod, schemes)
     check_no_arg_mutation(ck, 'C17.D1.inputs-unmodified', [
         (PA, 'top_path'), (PA, 'paths'), (PA, '_remove_bottleneck'), (PA, '_subtract_path_flux')])
     return EXPLANATION
@@ -904,7 +915,17 @@ def d3_removal(ck, mod):
     bound (once) to a copy of the matrix parameter.  What happens to W is read
     off its stores (see _matrix_effects), compared after expansion."""
     rule = 'C17.D3.removal'
+    schemes = {}
     for name in ('_subtract_path_flux', '_remove_bottleneck'):
+        schemes[name] = d3_one(ck, mod, rule, name)
+    return schemes
+
+
+def d3_one(ck, mod, rule, name):
+    """-> {'effect': 'consumes' (the path flux is deducted from every edge of the path) | 'single-edge' (only the
+    bottleneck edge is changed) | None (not decided), 'node': statement to report}"""
+    summary = {'effect': None, 'node': None}
+    for _once in (0,):
         fn = mod.func(name)
         ck.analysed(mod, fn)
         fi = finfo(mod, fn)
@@ -947,10 +968,10 @@ def d3_removal(ck, mod):
         zpats = ['(%s[%s], %s[%s + 1])' % (path, k, path, k) for k in Ks] + ['(%s[%s], %s[1 + %s])' % (path, k, path, k) for k in Ks]
         zero = [e for e in events if e['kind'] == 'store' and _is_zero(e['val'])]
         rest = [e for e in events if e not in zero]
-        z = None
+        z, zv = None, None
         if len(zero) == 1:
             z = zero[0]
-            v = classify(z['idx'], zpats, scope={W, path})
+            v = zv = classify(z['idx'], zpats, scope={W, path})
             ck.decide(v, rule + '.bottleneck', mod, z['stmt'], name, z['text'],
                       'the bottleneck edge path[k] -> path[k+1], k = argmin over the CONSECUTIVE edges of the path, is removed',
                       'the edge set to 0 must be path[k] -> path[k + 1] with k = argmin of net_flux[path[:-1], path[1:]] (evaluated on the working matrix)')
@@ -965,6 +986,8 @@ def d3_removal(ck, mod):
         if name == '_remove_bottleneck':
             if rest:
                 ck.missing(rule + '.bottleneck', '_remove_bottleneck: additional store into the working matrix: %s' % rest[0]['text'][:100])
+            elif z is not None and complete and not lost and zv[0] == 'match':
+                summary = {'effect': 'single-edge', 'node': z['stmt']}
             continue
         # ---- subtract scheme: the path flux is subtracted on every edge of the path, in the working matrix
         mins = ['%s[%s].min()' % (W, e) for e in E] + ['min(%s[%s])' % (W, e) for e in E]
@@ -982,6 +1005,8 @@ def d3_removal(ck, mod):
             ck.decide(both, rule + '.subtract', mod, s['stmt'], name, s['text'],
                       'the path flux is subtracted THROUGH to the working matrix on every edge of the path',
                       'the subtract scheme must execute `net_flux[path[:-1], path[1:]] -= <min over the same edges>` on the working copy itself')
+            if both[0] == 'match' and complete:
+                summary = {'effect': 'consumes', 'node': s['stmt']}
             if z is not None:
                 ck.check(s['stmt'] is not z['stmt'] and fi.cfg.dominates(s['stmt'], z['stmt']), rule + '.subtract', mod, z['stmt'], name, 'order',
                          'bottleneck zeroed after the subtraction', 'zeroing must follow the subtraction')
@@ -996,6 +1021,7 @@ def d3_removal(ck, mod):
         else:
             ck.missing(rule + '.subtract', '_subtract_path_flux: exactly one subtracting store into the working matrix (found %d candidate(s) among %d store(s))' % (
                 len(cand), len(rest)))
+    return summary
 
 
 # ---------------------------------------------------------------------------
@@ -1070,7 +1096,40 @@ def _flag_exit(mod, fn, fi, loop):
     return _Guard(inner, inner.value, False, [])
 
 
-def d4_paths(ck, mod):
+def _fold_const(e):
+    """Value of an arithmetic expression over numeric literals (constant folding), else None."""
+    if isinstance(e, ast.Constant):
+        return e.value if type(e.value) in (int, float) else None
+    if isinstance(e, ast.UnaryOp) and isinstance(e.op, (ast.USub, ast.UAdd)):
+        v = _fold_const(e.operand)
+        return None if v is None else (-v if isinstance(e.op, ast.USub) else v)
+    if isinstance(e, ast.BinOp) and isinstance(e.op, (ast.Add, ast.Sub, ast.Mult, ast.Div)):
+        a, b = _fold_const(e.left), _fold_const(e.right)
+        if a is None or b is None or (isinstance(e.op, ast.Div) and b == 0):
+            return None
+        return a + b if isinstance(e.op, ast.Add) else a - b if isinstance(e.op, ast.Sub) else a * b if isinstance(e.op, ast.Mult) else a / b
+    return None
+
+
+def _header_limits(fi, loop, npaths, cutoff):
+    """`while <q1> < num_paths [and <q2> < flux_cutoff]:` - the loop test as a list of (kind, Cmp) continue
+    conditions, every one an ordering test against one of the two limit parameters; None if the test has
+    any other shape."""
+    if loop.orelse:
+        return None
+    out = []
+    for a in conjuncts(loop.test, True) or [None]:
+        if not isinstance(a, Cmp) or a.as_less() is None:
+            return None
+        sides = (fi.xu(a.lhs), fi.xu(a.rhs))
+        pn = [x for x in (a.lhs, a.rhs) if isinstance(x, ast.Name) and x.id in (npaths, cutoff) and fi.defs_of_use(x) == {'PARAM'}]
+        if len(pn) != 1 or not ((npaths in sides) ^ (cutoff in sides)):
+            return None
+        out.append(('count' if pn[0].id == npaths else 'expl', a))
+    return out or None
+
+
+def d4_paths(ck, mod, schemes=None):
     """The constructs are located by role: the search call `top_path(...)`
     fixes the loop, the working matrix (its third argument), the path and the
     flux; the lists are "what the path / the flux is appended to"; the
@@ -1110,12 +1169,14 @@ def d4_paths(ck, mod):
     vs = classify(ast.Tuple(elts=[fi.expand(amap[tpp[0]], stop=(sources, sinks, W)), fi.expand(amap[tpp[1]], stop=(sources, sinks, W))], ctx=ast.Load()),
                   ['(%s, %s)' % (sources, sinks)], scope={sources, sinks, W, nf})
     ck.decide(vs, rule + '.search', mod, tps, F, u(tps), 'the search runs from the sources to the sinks', 'top_path must be called with (sources, sinks, <working matrix>)')
-    flag = None
+    flag, header = None, []
     if fi.xu(loop.test) not in ('True', '1'):
         flag = _flag_exit(mod, fn, fi, loop)
         if flag is None:
-            ck.missing(rule + '.loop', 'loop condition `%s` of the path loop is neither constant nor a flag that is set once per iteration with everything '
-                       'after it guarded by the flag: exits through the loop test are not modelled' % u(loop.test))
+            header = _header_limits(fi, loop, npaths, cutoff)
+        if flag is None and header is None:
+            ck.missing(rule + '.loop', 'loop condition `%s` of the path loop is neither constant, nor a flag that is set once per iteration with everything '
+                       'after it guarded by the flag, nor a conjunction of tests of num_paths / flux_cutoff: exits through the loop test are not modelled' % u(loop.test))
             return
 
     # ---- the removal: `W = <callable>(W, PATH)` in the loop; W is a copy of the parameter before the loop
@@ -1244,7 +1305,8 @@ def d4_paths(ck, mod):
         ck.missing(rule + '.order', 'exit from the path loop not modelled: `%s`' % u(exits[0])[:80])
         return
     nopath_forms = ['np.isinf(%s)' % FLUX, '%s == -np.inf' % FLUX, '-np.inf == %s' % FLUX, "%s == float('-inf')" % FLUX, 'np.isneginf(%s)' % FLUX]
-    atoms = {'count': [], 'expl': [], 'nopath': [], 'nopath_inv': [], 'other': []}
+    atoms = {'count': [], 'expl': [], 'nopath': [], 'nopath_inv': [], 'bound': [], 'other': []}
+    bound_forms = ['_A + %s / _T' % FLUX, '%s / _T + _A' % FLUX]
     for g in guards:
         pol, cont = g.pol, conjuncts(g.test, not g.pol)
         if cont is None:
@@ -1271,6 +1333,9 @@ def d4_paths(ck, mod):
                     atoms['expl'].append((g, a))
                 elif a.op in (ast.NotEq, ast.Eq) and classify(ast.Compare(left=a.lhs, ops=[ast.Eq()], comparators=[a.rhs]), nopath_forms)[0] == 'match':
                     atoms['nopath' if a.op is ast.NotEq else 'nopath_inv'].append((g, a))
+                elif less is not None and _fold_const(less[2]) is not None and classify(fi.expand(less[0], stop=(W,)), bound_forms)[0] == 'match':
+                    # continue only while <explained so far> + flux / <total> <= K: a bound on the explained total
+                    atoms['bound'].append((g, a))
                 else:
                     atoms['other'].append((g, a))
             else:
@@ -1366,7 +1431,7 @@ def d4_paths(ck, mod):
                 ordered.append(inc)
         else:
             ck.missing(rule + '.limits', 'quantity `%s` compared with %s is not a counter of the recorded paths' % (u(q), npaths))
-    acc = None
+    acc, T_acc, ACC = None, None, None
     if le is not None:
         g, q = le
         ds = list(fi.defs_of_use(q)) if isinstance(q, ast.Name) else []
@@ -1393,6 +1458,8 @@ def d4_paths(ck, mod):
             ck.decide(vi, rule + '.limits', mod, init[0] if vi[0] != 'far' else acc, F, u(init[0]) if vi[0] != 'far' else q.id,
                       'explained fraction starts at 0', 'the explained fraction must start at 0')
             ordered.append(acc)
+            if vt[0] == 'match' and isinstance(q, ast.Name):
+                T_acc, ACC = vt[1].get('_T'), q.id
             if vt[0] == 'match':
                 # the divisor: total outflow of the sources (of the matrix as it is before any path is removed)
                 tot_forms = []
@@ -1414,6 +1481,70 @@ def d4_paths(ck, mod):
                     ck.decide(v, rule + '.total', mod, tdef, F, u(tdef), 'total = outflow of the sources (rows)', 'total_flux must be the sum of the source ROWS')
     if lc is not None and le is not None:
         ck.ok(rule + '.limits', mod, lc[0].node, u(lc[0].test), 'stop when the requested number of paths OR the explained fraction is reached')
+
+    # ---- limits tested in the loop header: same quantities as in the guards after the recording, `<quantity> < <limit>`
+    head_ok = {}
+    for kind, a in header:
+        mine = {'count': lc, 'expl': le}[kind]
+        param = {'count': npaths, 'expl': cutoff}[kind]
+        small, strict, big = a.as_less()
+        if fi.xu(big) != param:
+            ck.bad(rule + '.limits', mod, loop, F, 'loop test: %s' % a, 'the loop may only continue while <quantity> < %s; here it continues while `%s`' % (param, a))
+        elif mine is None:
+            ck.missing(rule + '.limits', 'the limit %s is tested in the loop header only (`%s`): no guard between the recording and the removal' % (param, a))
+        elif u(small) != u(mine[1]):
+            ck.missing(rule + '.limits', 'the loop header compares `%s` with %s, the guard after the recording `%s`' % (u(small), param, u(mine[1])))
+        elif not strict:
+            ck.bad(rule + '.limits', mod, loop, F, 'loop test: %s' % a, 'the loop must not be entered once <quantity> >= %s: `%s` lets one more path through' % (param, a))
+        else:
+            head_ok[kind] = a
+            ck.ok(rule + '.limits', mod, loop, 'loop test: %s' % a, 'the limit is also tested before every search')
+
+    # ---- the path-count limit also holds for the FIRST path (num_paths = 0 is a path count): some test of num_paths
+    # must be passed on every way from the entry to the recording step.  The counter was shown to start at 0 and to
+    # advance only after a recording, so a test that comes after the recording cannot stop the first path.
+    if lc is not None:
+        g0, q0 = lc
+        pre = 'count' in head_ok or any(all(cfg.dominates(g.node, s_) and not _inside(mod, s_, g.node) for s_ in rec) for g, _a in atoms['count'])
+        if pre:
+            ck.ok(rule + '.limits.first-path', mod, loop, 'num_paths tested before the first recording', 'a request for zero paths records nothing')
+        else:
+            ck.bad(rule + '.limits.first-path', mod, g0.node, F, 'num_paths is first tested after a path has been recorded',
+                   'the requested number of paths must be respected for every count, 0 included: `%s` is evaluated only after `%s`, and no test of %s is '
+                   'passed between the entry of paths() and the first recording, so paths(..., %s=0) returns one pathway' % (
+                       u(g0.test)[:80], u(rec[0])[:60], npaths, npaths))
+
+    # ---- the pathway fluxes never add up to more than the total outflow of the sources: the recorded paths must form a
+    # feasible flow.  Either every built-in removal scheme deducts the path flux from EVERY edge of the path (then each
+    # path uses up capacity on its own source edge), or the loop refuses a path that would lift the explained total above 1.
+    if schemes is not None:
+        srule = 'C17.D3.removal.sum-bound'
+        bound_ok, bound_unknown = False, None
+        for g, a in atoms['bound']:
+            small, strict, big = a.as_less()
+            vb = classify(fi.expand(small, stop=(W,)), bound_forms)
+            K = _fold_const(big)
+            placed = cfg.dominates(tps, g.node) and all(cfg.dominates(g.node, s_) and not _inside(mod, s_, g.node) for s_ in rec)
+            if vb[0] == 'match' and ACC is not None and u(vb[1]['_A']) == ACC and T_acc is not None and u(vb[1]['_T']) == u(T_acc) \
+                    and K is not None and 1 <= K <= 1 + 1e-6 and placed:
+                bound_ok = True
+            else:
+                bound_unknown = g
+        for name in sorted(schemes):
+            eff = schemes[name]
+            if eff['effect'] == 'consumes':
+                ck.ok(srule, mod, eff['node'], '%s: path flux deducted from every edge of the path' % name, 'the recorded paths form a feasible flow')
+            elif eff['effect'] == 'single-edge' and bound_ok:
+                ck.ok(srule, mod, eff['node'], '%s: single edge removed; paths() refuses a path that over-explains' % name, 'explained total bounded in the loop')
+            elif eff['effect'] == 'single-edge' and bound_unknown is not None:
+                ck.missing(srule, 'guard `%s` before the recording step not recognised as a bound of the explained total' % u(bound_unknown.test)[:80])
+            elif eff['effect'] == 'single-edge':
+                ck.bad(srule, mod, eff['node'], name, 'only the bottleneck edge of a recorded path is removed and paths() does not bound the explained total',
+                       'the sum of the pathway fluxes must never exceed the total outflow of the sources, for both removal schemes: %s changes '
+                       'one edge of the path and leaves the flux already attributed to the path on all its other edges, so later paths use that '
+                       'flux again (e.g. two paths through the same source edge), and the loop of paths() adds every bottleneck to the explained '
+                       'flux without an upper bound' % name)
+            # (effect None: the scheme itself was reported by C17.D3.removal.*)
 
     # ---- order: record -> test -> remove
     lim_guards = [x[0] for x in (lc, le) if x is not None]
